@@ -1,6 +1,7 @@
 package gv
 
 import (
+	"encoding/json"
 	"fmt"
 	"go/ast"
 	goparser "go/parser"
@@ -114,9 +115,99 @@ func (c *Ctx) frontParserTarget() (*Target, *RefLR, error) {
 	os.WriteFile(f2, []byte(strings.Replace(g.HarnessData(true), "var verifProds = []verifProd{", "var verifProds = []verifProd{", 1)), 0o644)
 	f3 := filepath.Join(dir, "specref.go")
 	os.WriteFile(f3, []byte(r.HarnessTables()), 0o644)
-	t := repoTarget("internal/frontend/parser", "parser", "frontparser/c15.go")
+	t := repoTarget("internal/frontend/parser", "parser", "frontparser/c15.go", "frontparser/dump.go")
 	t.Harness = append(t.Harness, f1, f2, f3)
+	// candidate simulation relation between shipped states and reference states
+	pairs, err := c.frontSimPairs(t, g, r)
+	if err != nil {
+		return nil, nil, err
+	}
+	var pb strings.Builder
+	pb.WriteString("//go:build verif\n\npackage parser\n\n// candidate simulation relation (shipped state, reference state), found by search from (0,0)\nvar verifSimPairs = [][2]int{")
+	for _, p := range pairs {
+		fmt.Fprintf(&pb, "{%d, %d}, ", p[0], p[1])
+	}
+	pb.WriteString("}\n")
+	f4 := filepath.Join(dir, "simpairs.go")
+	os.WriteFile(f4, []byte(pb.String()), 0o644)
+	t.Harness = append(t.Harness, f4)
+	c.Extra["simulation_relation_pairs"] = len(pairs)
 	return t, r, nil
+}
+
+type frontDump struct {
+	CanRecover []bool `json:"can_recover"`
+	Actions    [][]struct {
+		Tok string `json:"tok"`
+		K   int    `json:"k"`
+		V   int    `json:"v"`
+	} `json:"actions"`
+	Goto []map[string]int `json:"goto"`
+}
+
+// frontSimPairs dumps the shipped tables natively and searches the pairs (shipped state,
+// reference state) reachable from (0,0) by corresponding shifts and gotos. Mismatches do not
+// stop the search: they are found (and reported) by the solver-checked harness.
+func (c *Ctx) frontSimPairs(t *Target, g *SynGrammar, r *RefLR) ([][2]int, error) {
+	// the dump runs before simpairs.go exists: give the package an empty relation for this build
+	tmp := *t
+	tmp.Harness = append([]string{}, t.Harness...)
+	stub := filepath.Join(c.Scratch, "simpairs_stub.go")
+	os.WriteFile(stub, []byte("//go:build verif\n\npackage parser\n\nvar verifSimPairs = [][2]int{}\n"), 0o644)
+	tmp.Harness = append(tmp.Harness, stub)
+	bin := filepath.Join(c.Scratch, "frontdump.test")
+	if err := tmp.BuildReplayBinary(bin, c.Scratch); err != nil {
+		return nil, err
+	}
+	nr, err := tmp.RunReplayBinary(bin, "VerifDumpTables", "/dev/null")
+	if nr == nil {
+		return nil, err
+	}
+	m := tablesRe.FindStringSubmatch(nr.Raw)
+	if m == nil {
+		return nil, fmt.Errorf("no table dump in native output")
+	}
+	var d frontDump
+	if err := json.Unmarshal([]byte(m[1]), &d); err != nil {
+		return nil, err
+	}
+	tidx := map[string]int{}
+	for i, n := range r.Terms {
+		tidx[n] = i
+	}
+	seen := map[[2]int]bool{{0, 0}: true}
+	work := [][2]int{{0, 0}}
+	for i := 0; i < len(work); i++ {
+		s, rs := work[i][0], work[i][1]
+		if s >= len(d.Actions) || rs >= len(r.States) {
+			continue
+		}
+		add := func(p [2]int) {
+			if !seen[p] && len(seen) < 4000 {
+				seen[p] = true
+				work = append(work, p)
+			}
+		}
+		for _, a := range d.Actions[s] {
+			col, ok := tidx[a.Tok]
+			if !ok {
+				continue
+			}
+			if ra := r.Resolved[rs][col]; a.K == 2 && ra >= 2 {
+				add([2]int{a.V, ra - 2})
+			}
+		}
+		for ntName, tgt := range d.Goto[s] {
+			for k, n := range r.NTs {
+				if n == ntName {
+					if rt, ok := r.Goto[rs][-(k + 1)]; ok {
+						add([2]int{tgt, rt})
+					}
+				}
+			}
+		}
+	}
+	return work, nil
 }
 
 func (c *Ctx) frontJobs(maxN int) []Job {
@@ -127,6 +218,13 @@ func (c *Ctx) frontJobs(maxN int) []Job {
 	}
 	c.Extra["spec_grammar"] = fmt.Sprintf("%d productions, %d terminals, reference LR(1) automaton with %d states", len(r.Prods)-1, len(r.Terms), len(r.States))
 	var jobs []Job
+	jobs = append(jobs, Job{
+		Name:           "front-end table simulation",
+		Target:         t,
+		Run:            SymRun{Harness: "VerifC15TableSim", LoopBound: 400, InitExtra: []string{RepoMod + "/internal/frontend/token"}},
+		Bounds:         "every pair of the simulation relation between the shipped automaton and the reference LR(1) automaton of the spec, every terminal and end of input (symbolic), every nonterminal (symbolic): unbounded in the length of the input",
+		RequiredCovers: []string{"end"},
+	})
 	for n := 0; n <= maxN; n++ {
 		jobs = append(jobs, Job{
 			Name:           fmt.Sprintf("front-end lockstep N=%d", n),
